@@ -255,7 +255,7 @@ func runC10(r *Report) {
 				if !ok {
 					return false
 				}
-				g := normGuard(Guard{iff.Cond, succ == 0})
+				g := normGuard(Guard{iff.Cond, succ == 0, from})
 				if over, ok := overMax(g); ok && !over {
 					return true
 				}
